@@ -102,36 +102,31 @@ def indexBlocks (idx : Index) (v : Val) : Bool :=
 def passes (idx : Index) (v : Val) : Bool :=
   !indexBlocks idx v && v.aclKnown && v.canWrite
 
-/-- loop state of `updateValues` -/
+/-- what `updateValues` hands back: the pending collection state, the new diff elements, and what is
+needed to undo them (prior heads of replaced elements, ids that were not present) -/
 structure Upd where
   pend     : Store
   elements : List (Nat × Nat) := []
   prior    : List (Nat × Nat) := []
   added    : List Nat := []
-  finds    : Nat := 0
-  upserts  : Nat := 0
 deriving Repr
 
-/-- `updateValues`; `none` = the injected fault fired (the caller rolls back) -/
-def updateValues (f : Fault) : List Val → Upd → Option Upd
-  | [], u => some u
-  | v :: rest, u =>
-    if f = .find u.finds then none else
-    let u := { u with finds := u.finds + 1 }
-    match lookup u.pend v.slot with
+/-- `updateValues`; `none` = the injected fault fired (the caller rolls back). `nf` / `nu` count the
+`FindIdWithParser` / `UpsertOne` calls made so far in this transaction. -/
+def updateValues (f : Fault) : List Val → Store → Nat → Nat → Option Upd
+  | [], pend, _, _ => some { pend := pend }
+  | v :: rest, pend, nf, nu =>
+    if f = .find nf then none else
+    match lookup pend v.slot with
     | some e =>
-      if e.ts ≥ v.ts then updateValues f rest u
-      else if f = .upsert u.upserts then none
-      else updateValues f rest { u with
-        pend := upsert u.pend v.slot v, upserts := u.upserts + 1,
-        prior := u.prior ++ [(v.slot, headOf e.ts)],
-        elements := u.elements ++ [(v.slot, headOf v.ts)] }
+      if e.ts ≥ v.ts then updateValues f rest pend (nf + 1) nu
+      else if f = .upsert nu then none
+      else (updateValues f rest (upsert pend v.slot v) (nf + 1) (nu + 1)).map fun o =>
+        { o with elements := (v.slot, headOf v.ts) :: o.elements, prior := (v.slot, headOf e.ts) :: o.prior }
     | none =>
-      if f = .upsert u.upserts then none
-      else updateValues f rest { u with
-        pend := upsert u.pend v.slot v, upserts := u.upserts + 1,
-        added := u.added ++ [v.slot],
-        elements := u.elements ++ [(v.slot, headOf v.ts)] }
+      if f = .upsert nu then none
+      else (updateValues f rest (upsert pend v.slot v) (nf + 1) (nu + 1)).map fun o =>
+        { o with elements := (v.slot, headOf v.ts) :: o.elements, added := v.slot :: o.added }
 
 /-- `diff.Set(elements...)` on the id ↦ head view -/
 def applyEls (idx : Index) (els : List (Nat × Nat)) : Index :=
@@ -144,7 +139,7 @@ def undo (idx : Index) (prior : List (Nat × Nat)) (added : List Nat) : Index :=
 /-- `innerstorage.Set`; the Bool says whether it returned nil -/
 def innerSet (f : Fault) (vals : List Val) (s : State) : State × Bool :=
   if f = .begin then (s, false) else
-  match updateValues f vals { pend := s.store } with
+  match updateValues f vals s.store 0 0 with
   | none => (s, false)
   | some u =>
     let idx := applyEls s.index u.elements
@@ -176,17 +171,18 @@ def localSet (f : Fault) (own : Bool) (v : Val) (s : State) : State × Res :=
 
 def keys {α : Type} (m : List (Nat × α)) : List Nat := m.map (·.1)
 
-/-- ids only we have, or where our head is the greater one: we push their values -/
+/-- ids only we have, or where our head is the greater one: we push their values.
+(`removedIds ++ changedIds` of `CompareDiff`; the ldiff recursion that computes it is C07's subject) -/
 def pushIds (mine theirs : Index) : List Nat :=
-  (mine.filter (fun e => match lookup theirs e.1 with
-    | none => true
-    | some h => decide (h < e.2))).map (·.1)
+  (keys mine).filter fun k =>
+    match lookup mine k, lookup theirs k with
+    | some hm, some ht => decide (ht < hm)
+    | some _, none => true
+    | none, _ => false
 
-/-- ids only they have, or where their head is the greater one: we ask for their values -/
-def pullIds (mine theirs : Index) : List Nat :=
-  (theirs.filter (fun e => match lookup mine e.1 with
-    | none => true
-    | some h => decide (h < e.2))).map (·.1)
+/-- ids only they have, or where their head is the greater one: we ask for their values
+(`theirChangedIds ++ newIds`) -/
+def pullIds (mine theirs : Index) : List Nat := pushIds theirs mine
 
 def valuesAt (st : Store) (ids : List Nat) : List Val := ids.filterMap (lookup st)
 
